@@ -16,7 +16,7 @@ import c19_gen as G
 import c19_real as R
 
 MODEL_FILES = ['MaltModel/Analysis/TypeInf.lean', 'MaltModel/Analysis/TypeInfSem.lean', 'MaltModel/Proofs/C19.lean',
-               'MaltModel/Drv/C19.lean']
+               'MaltModel/Proofs/C19Cex.lean', 'MaltModel/Drv/C19.lean']
 KNOWN_CLASSES = R.CLASS_ORDER
 
 
@@ -160,7 +160,7 @@ def lean_jobs(items):
     for prog, an, taint, wsets in items:
         for fi in an.fns:
             jobs.append({'prog': prog, 'an': an, 'fi': fi, 'extra': {}, 'S': sorted(taint.get(fi.def_id, {})),
-                         'W': sorted(wsets.get(fi.def_id, ()))})
+                         'W': sorted(wsets.get(fi.def_id, ())), 'seeds': getattr(an, 'taint_seeds', {}).get(fi.def_id, [])})
     return jobs
 
 
@@ -175,6 +175,13 @@ def _check_line(j):
     return 'c19.check %s %s %s %s %s %s %s %s %s' % (
         sexp(an.env_sexp(fi)), sexp(an.graph_sexp(fi)), sexp(an.table_sexp(j['extra'])), sexp(fi.reach),
         sexp(an.nmap_sexp(fi, 'in')), sexp(an.nmap_sexp(fi, 'out')), sexp(clos), sexp(j['W']), sexp(j['S']))
+
+
+def _taint_line(j):
+    an, fi = j['an'], j['fi']
+    return 'c19.taint %s %s %s %s %s %s' % (
+        sexp(an.env_sexp(fi)), sexp(an.graph_sexp(fi)), sexp(an.table_sexp(j['extra'])), sexp(fi.reach),
+        sexp(an.nmap_sexp(fi, 'in')), sexp(j['seeds']))
 
 
 def drive_with_misses(run, jobs, mk_line, key):
@@ -211,8 +218,11 @@ def _nmap(x):
     return {int(i): T.map_of_sexp(m) for i, m in x}
 
 
-def correspondence(run, jobs, stats):
-    dis = {'ins': [], 'outs': [], 'annos': [], 'clos': [], 'finished': [], 'driver': []}
+DIS_KEYS = ('ins', 'outs', 'annos', 'clos', 'finished', 'driver')
+BAD_KEYS = ('fix', 'cover', 'taint', 'least')
+
+
+def correspondence(run, jobs, stats, dis):
     n = 0
     by_an = {}
     for j in jobs:
@@ -262,16 +272,13 @@ def correspondence(run, jobs, stats):
             stats['model_annotations'] = stats.get('model_annotations', 0) + len(an.types_anno)
             if tot != an.closure_anno:
                 dis['clos'].append(dict(where, function='*', model=repr(tot), real=repr(an.closure_anno)))
-    for k in ('ins', 'outs', 'annos', 'clos', 'finished', 'driver'):
-        run.oblige('correspondence:c19.' + k, 'correspondence', not dis[k], json.dumps(dis[k][:2]))
-    stats['model_functions_compared'] = n
+    stats['model_functions_compared'] = stats.get('model_functions_compared', 0) + n
     run.evaluations += n
-    return dis
 
 
-def checkers(run, jobs, stats):
-    """Verified checkers on the REAL Analyzer.in_/out and CLOSURE_TYPES."""
-    bad = {'fix': [], 'cover': [], 'taint': []}
+def checkers(run, jobs, stats, bad):
+    """Verified checkers on the REAL Analyzer.in_/out and CLOSURE_TYPES; the taint set used to classify failures must be
+    closed (theorem hypothesis) and least (nothing excused beyond what the hypothesis forces)."""
     n = 0
     for j in jobs:
         res = j.get('chk')
@@ -288,12 +295,27 @@ def checkers(run, jobs, stats):
         for k in ('fix', 'cover', 'taint'):
             if res[k][0] != 'True':
                 bad[k].append(where)
-    run.oblige('checker:isTIFix(real in_/out)', 'checker', not bad['fix'], json.dumps(bad['fix'][:2]))
-    run.oblige('checker:closCovers(real CLOSURE_TYPES)', 'checker', not bad['cover'], json.dumps(bad['cover'][:2]))
-    run.oblige('checker:taintClosed(class predicate = theorem hypothesis)', 'checker', not bad['taint'], json.dumps(bad['taint'][:2]))
-    stats['checker_functions'] = n
+        lt = j.get('lt')
+        if lt is None or sorted(lt['least'][0]) != sorted(j['S']):
+            bad['least'].append(dict(where, seeds=j['seeds'], least=None if lt is None else sorted(lt['least'][0])))
+    stats['checker_functions'] = stats.get('checker_functions', 0) + n
     run.evaluations += n
-    return bad
+
+
+def lean_chunk(run, items, stats, dis, bad):
+    jobs = lean_jobs(items)
+    rounds = drive_with_misses(run, jobs, _analyze_line, 'res')
+    stats['replay_rounds_max'] = max(stats.get('replay_rounds_max', 0), rounds)
+    correspondence(run, jobs, stats, dis)
+    live = [j for j in jobs if j['an'].diverged is None]
+    drive_with_misses(run, live, _check_line, 'chk')
+    drive_with_misses(run, live, _taint_line, 'lt')
+    stats['replay_table_entries_added'] = stats.get('replay_table_entries_added', 0) + sum(len(j['extra']) for j in jobs)
+    checkers(run, jobs, stats, bad)
+    if jobs and len(run.samples) < 4:
+        j = jobs[len(jobs) // 2]
+        run.sample({'function': j['fi'].fdef.name, 'program': j['prog'].source, 'model_annotations': str((j.get('res') or {}).get('annos'))[:600],
+                    'checkers': {k: v for k, v in (j.get('chk') or {}).items() if k != 'miss'}, 'taint_set': j['S']})
 
 
 def check(run, only=None):
@@ -305,6 +327,7 @@ def check(run, only=None):
         'the harness resolver is truthful: its operator rules are validated against CPython by sampling on every run; '
         'annotations written by the generator are true by construction',
         'run-time types are observed by wrapping expressions in a logging call (does not change evaluation order)',
+        'the work list of GraphVisitor visits successors in the iteration order of a frozenset (unspecified); the harness fixes one legal order (ascending node id) for reproducibility, the model uses the same order',
         'the concrete semantics of lean/MaltModel/Analysis/TypeInfSem.lean (values, Eval, Step) as a description of CPython on the modelled fragment',
         'the CFG, activity scopes and reaching function definitions are taken from the real code as inputs (they are C05/C08 territory)',
     ]
@@ -331,43 +354,72 @@ def check(run, only=None):
         progs = [(only, None)]
     wit_ok = {}
     n = 0
+    dis = {k: [] for k in DIS_KEYS}
+    bad = {k: [] for k in BAD_KEYS}
+    sizes = {'cfg_nodes': [], 'functions': []}
+    by_profile = {}
+
+    def flush():
+        if items and run.driver_ok:
+            lean_chunk(run, items, stats, dis, bad)
+        del items[:]
+
+    def record(prog, r):
+        items.append((prog, r[0], r[1], r[2]))
+        sizes['cfg_nodes'].append(sum(len(fi.nodes) for fi in r[0].fns))
+        sizes['functions'].append(len(r[0].fns))
+        if 'witness' in prog.features or 'corpus' in prog.features or 'replay' in prog.features:
+            by_profile['witness/corpus'] = by_profile.get('witness/corpus', 0) + 1
+        elif not prog.profile:
+            by_profile['clean'] = by_profile.get('clean', 0) + 1
+        else:
+            by_profile['with_hazards'] = by_profile.get('with_hazards', 0) + 1
+            for h in prog.profile:
+                by_profile['hazard:' + h] = by_profile.get('hazard:' + h, 0) + 1
+        if len(items) >= 100:
+            flush()
     try:
         for prog, cls in progs:
             before = len(run.failing)
             r = one_program(run, prog, ns, stats)
             if r is not None:
-                items.append((prog, r[0], r[1], r[2]))
+                record(prog, r)
             if cls is not None:
                 got = run.failing[before:]
                 wit_ok[prog.key] = bool(got) and all(f['cls'] == cls for f in got)
         if wit_ok:
             run.cov['known_finding_witnesses_still_fail'] = wit_ok
         if only is None:
-            n = 150 if quick else 1500
+            n = 150 if quick else 800
             for prog in G.generate(run.rng, n, size=8 if quick else 10):
                 r = one_program(run, prog, ns, stats)
                 if r is not None:
-                    items.append((prog, r[0], r[1], r[2]))
+                    record(prog, r)
                     if len(run.samples) < 2 and r[3]['checked'] > 20:
                         run.sample({'program': prog.source, 'inputs': [list(i) for i in prog.inputs], 'profile': prog.profile,
                                     'annotated_occurrences_checked': r[3]['checked'], 'untainted': r[3]['checked_untainted'],
                                     'tainted_names': {an_fi.fdef.name: sorted(r[1].get(an_fi.def_id, {})) for an_fi in r[0].fns}})
     except TooManyTimeouts:
-        run.notes.append('stopped generating: the real analysis timed out on 3 programs')
+        run.notes.append('stopped generating: the real analysis failed to converge, unexplained, on 3 programs')
+    flush()
     if run.driver_ok:
-        jobs = lean_jobs(items)
-        rounds = drive_with_misses(run, jobs, _analyze_line, 'res')
-        stats['replay_rounds'] = rounds
-        stats['replay_table_entries_added'] = sum(len(j['extra']) for j in jobs)
-        correspondence(run, jobs, stats)
-        drive_with_misses(run, jobs, _check_line, 'chk')
-        checkers(run, jobs, stats)
-        if jobs:
-            j = jobs[len(jobs) // 2]
-            run.sample({'function': j['fi'].fdef.name, 'program': j['prog'].source, 'model_annotations': str(j.get('res', {}).get('annos'))[:600],
-                        'checkers': {k: v for k, v in (j.get('chk') or {}).items() if k != 'miss'}})
+        for k in DIS_KEYS:
+            run.oblige('correspondence:c19.' + k, 'correspondence', not dis[k], json.dumps(dis[k][:2]))
+        run.oblige('checker:isTIFix(real in_/out)', 'checker', not bad['fix'], json.dumps(bad['fix'][:2]))
+        run.oblige('checker:closCovers(real CLOSURE_TYPES)', 'checker', not bad['cover'], json.dumps(bad['cover'][:2]))
+        run.oblige('checker:taintClosed(class predicate = theorem hypothesis)', 'checker', not bad['taint'], json.dumps(bad['taint'][:2]))
+        run.oblige('checker:leastTaint(class predicate excuses nothing more)', 'checker', not bad['least'], json.dumps(bad['least'][:2]))
     else:
         run.oblige('correspondence:c19', 'correspondence', False, 'driver unavailable')
+    by_cls = {}
+    for f in run.failing:
+        by_cls[str(f['cls'])] = by_cls.get(str(f['cls']), 0) + 1
+    run.cov['failing_inputs_by_class'] = by_cls
+    run.cov['programs_by_profile'] = by_profile
+    if sizes['cfg_nodes']:
+        sn = sorted(sizes['cfg_nodes'])
+        run.cov['cfg_nodes_per_program'] = {'min': sn[0], 'median': sn[len(sn) // 2], 'max': sn[-1]}
+        run.cov['functions_per_program'] = {'max': max(sizes['functions']), 'mean': round(sum(sizes['functions']) / len(sizes['functions']), 2)}
     run.cov['stats'] = stats
     run.cov['search'] = 'direct oracle (run-time type log vs TYPES / CLOSURE_TYPES) on %d generated programs x 4 inputs + %d witnesses/corpus cases' % (n, len(progs))
 
